@@ -701,13 +701,39 @@ pub fn judge(case: &Case, l: &mut Local) {
     }
 }
 
+/// A long push history (values on a coarse grid, so ties with the current extremes are frequent): the extremes
+/// after every single push
+fn judge_long(item: &(usize, u64), l: &mut Local) {
+            let (n, mult) = *item;
+            let mut set = SurfaceDeviationSet2::default();
+            let (mut mx, mut mn) = (f64::NEG_INFINITY, f64::INFINITY);
+            let mut ok = true;
+            let mut at = 0usize;
+            for i in 0..n {
+                // values on a coarse grid so that ties with the current extremes are frequent
+                let v = (((i as u64 * mult * 2654435761) >> 7) % 41) as f64 * 0.25 - 5.0 + if i % 97 == 0 { 0.125 * (i / 97) as f64 } else { 0.0 };
+                if i % 2 == 0 { set.push(dev(i, v)); } else { let x = dev(i, v); set.push_new(x.surface, x.deviation); }
+                mx = mx.max(v);
+                mn = mn.min(v);
+                let good = set.len() == i + 1 && set.max().map(|d| d.deviation) == Some(mx) && set.min().map(|d| d.deviation) == Some(mn) && set.symmetrical_zone_size() == 2.0 * mx.abs().max(mn.abs());
+                if !good && ok {
+                    ok = false;
+                    at = i;
+                }
+            }
+            l.eval();
+            l.transitions += n as u64;
+            l.bucket("deviation set: long push history");
+            l.check("deviation set reports the true maximum, minimum and symmetric zone", "long history", ok, || json!({"kind": "devset", "long": [n, mult]}), || format!("{} pushes (multiplier {}): first wrong after push {}", n, mult, at));
+        }
+
 pub fn run(tier: Tier) -> i32 {
     let mut cx = Ctx::new("C16", tier, "model_checking");
     cx.rule = "MC: deviation set = every push history of length <= 5 (thorough: 6) over {-2,-1,0,0.5,3} (repeats give ties) from default() and from new(v) for every v of length <= 2, state key = contents + identity of the reported extremes; point cloud = every history of append (4 presence combinations), merge (4 flavours x sizes 0..2), index selection (all lists of <= 2 indices) up to depth 3 (thorough: 5) against a Vec model, rejected operations must change nothing. EX: deviations of a 9x9 half-integer query grid, and of points 1e-7 and 1e-4 off every vertex, from every lattice curve with <= 4 vertices (with/without arc-length interval) and from 12 meshes (7^3 grid, both modes), the shorter curves and six of the meshes also in microns and tens of kilometres; directed distances over lattice pairs x 4 directions; every tolerance table of 1..4 breakpoints from {0,1,1,2.5,4} x queries at, one ulp around, between, below and beyond the breakpoints. distinct = distinct canonical states + distinct entities".into();
     let dev_depth = tier.pick(5, 6);
     let cloud_depth = tier.pick(3, 5);
     cx.bounds = json!({"devset_history": dev_depth, "devset_init_len": 2, "cloud_depth": cloud_depth, "curve_seq_len": tier.pick(3, 4)});
-    cx.require(&["deviation set: non-initial state", "deviation set: ties among the extremes", "deviation set: empty", "point cloud: non-initial state", "point cloud: accepted operation", "point cloud: rejected operation", "outward side", "inward side", "measured point on the nominal", "nearest face unique up to normal", "nearest point on an edge or vertex", "query below the start", "query beyond the end", "query inside the table"]);
+    cx.require(&["deviation set: long push history", "deviation set: non-initial state", "deviation set: ties among the extremes", "deviation set: empty", "point cloud: non-initial state", "point cloud: accepted operation", "point cloud: rejected operation", "outward side", "inward side", "measured point on the nominal", "nearest face unique up to normal", "nearest point on an edge or vertex", "query below the start", "query beyond the end", "query inside the table"]);
     cx.assume("sign clauses are judged only where the offset has a non-zero normal component; at mesh edges/vertices the plane-mode value may be the normal component of any adjacent face (see the C03 finding)");
 
     // MC 1: deviation set
@@ -752,6 +778,12 @@ pub fn run(tier: Tier) -> i32 {
         lx.eval();
         lx.check("deviation set invariant under the stateright exploration", "", sr_ok, || json!({"kind": "devset", "engine": "stateright"}), || "stateright reported a property discovery".to_string());
         cx.absorb(lx);
+    }
+    // long push histories (a thousand and more values, many ties): the extremes after every single push
+    {
+        let seqs: Vec<(usize, u64)> = vec![(1000, 3), (1025, 7), (4100, 11), (257, 13)];
+        let ll = sweep(&seqs, judge_long);
+        cx.absorb(ll);
     }
     // MC 2: point cloud
     let mut cinit = Vec::new();
@@ -803,6 +835,19 @@ pub fn run(tier: Tier) -> i32 {
 
 pub fn replay(case: &Val) -> Local {
     let case = if case.get("case").is_some() { &case["case"] } else { case };
+    if let Some(lg) = case.get("long") {
+        let mut l = Local::new();
+        judge_long(&(lg[0].as_u64().unwrap_or(257) as usize, lg[1].as_u64().unwrap_or(13)), &mut l);
+        return l;
+    }
+    if case.get("engine").is_some() {
+        // the stateright exploration as a whole
+        let mut l = Local::new();
+        let (_, _, ok) = crate::sr::devset_model_check(5, 1);
+        l.eval();
+        l.check("deviation set invariant under the stateright exploration", "", ok, || case.clone(), || "stateright reported a property discovery".to_string());
+        return l;
+    }
     let c: Case = serde_json::from_value(case.clone()).expect("case");
     let mut l = Local::new();
     judge(&c, &mut l);
